@@ -247,8 +247,11 @@ func EqualModuloNil(a, b reflect.Value) bool {
 		return true
 	case reflect.Struct:
 		for i := 0; i < a.NumField(); i++ {
-			if !t.Field(i).IsExported() {
+			if !t.Field(i).IsExported() && !(t.Field(i).Anonymous && t.Field(i).Type.Kind() == reflect.Struct) {
 				continue // unexported fields are not serialised
+			}
+			if t.Field(i).Tag.Get("json") == "-" {
+				continue // never serialised, whatever the value
 			}
 			if !EqualModuloNil(a.Field(i), b.Field(i)) {
 				return false
